@@ -389,8 +389,8 @@ def parse_output(output):
     outs, shows, dbs = [], {}, None
     for line in output.splitlines():
         if line.startswith('"OUT '):
-            term, ty, sizes, dup = lib.fast_parse_tla(line[5:-1].replace('\\"', '"'))
-            outs.append((term, ty, sorted(sizes), dup))
+            term, ty, sizes, dup, ref = lib.fast_parse_tla(line[5:-1].replace('\\"', '"'))
+            outs.append((term, ty, sorted(sizes), dup, tuple(ref)))
         elif line.startswith('"SHOW '):
             term, shown = lib.fast_parse_tla(line[6:-1].replace('\\"', '"'))
             shows[term] = shown
@@ -399,7 +399,7 @@ def parse_output(output):
     return outs, shows, dbs
 
 
-def judge(term, ty, sizes, dup, shown, tdbs, want):
+def judge(term, ty, sizes, dup, shown, tdbs, want, ref=None):
     """returns dict(status=ok|rejected|drift|VIOLATION, ...)"""
     claims = compile_claims(term)
     res = dict(text=claims['text'], claims=claims, failed=[], drift=None)
@@ -452,6 +452,17 @@ def judge(term, ty, sizes, dup, shown, tdbs, want):
                 and not claims['desc'].startswith('__derived__::'):
             f.append(('desc', f"type reported to the client {claims['desc']} but "
                               f"evaluated values have type {exp}"))
+    # the compiler's claim next to the specification's reference inference
+    if ref is not None and claims.get('card') in BOUNDS:
+        lo, hi = BOUNDS[claims['card']]
+        hi = 2 if hi is None else hi
+        rlo, rhi = ref
+        if (lo, hi) == (rlo, min(rhi, 2)) or (rhi == 0 and hi <= 1 and lo == 0):
+            res['vs_reference'] = 'same'
+        elif lo >= rlo and hi <= max(rhi, 1 if rhi == 0 else rhi):
+            res['vs_reference'] = 'tighter'
+        else:
+            res['vs_reference'] = 'looser'
     res['status'] = 'VIOLATION' if f else 'ok'
     return res
 
@@ -462,13 +473,15 @@ def _job(args):
     tdbs = [toy_db(d) for d in dbs] if dbs is not None else None
     out = []
     counts = collections.Counter()
-    for term, ty, sizes, dup, shown in rows:
+    for term, ty, sizes, dup, shown, ref in rows:
         try:
-            r = judge(term, ty, sizes, dup, shown, tdbs, want)
+            r = judge(term, ty, sizes, dup, shown, tdbs, want, ref)
         except (ValueError, RecursionError) as e:
             counts['unrenderable'] += 1
             continue
         counts[r['status']] += 1
+        if r.get('vs_reference'):
+            counts['ref:' + r['vs_reference']] += 1
         counts['toy:' + r.get('toy', 'n/a').split(':')[0]] += 1
         if r['status'] in ('VIOLATION', 'drift'):
             out.append(dict(status=r['status'], term=_js(term), text=r['text'],
@@ -528,7 +541,7 @@ def run(pid, tier, seed, rep):
             if cap and len(outs) > cap:
                 rnd.shuffle(outs)
                 outs = outs[:cap]
-            rows = [(t, ty, sz, dup, shows.get(t)) for t, ty, sz, dup in outs]
+            rows = [(t, ty, sz, dup, shows.get(t), ref) for t, ty, sz, dup, ref in outs]
             sample = sample or rows[len(rows) // 2]
             chunks = [rows[i::lib.NCPU * 4] for i in range(lib.NCPU * 4)]
             for counts, out in pool.imap_unordered(
@@ -552,6 +565,8 @@ def run(pid, tier, seed, rep):
                spec_vs_toy_disagreements=totals['drift'],
                toy_crosscheck={k[4:]: v for k, v in totals.items() if k.startswith('toy:')},
                unrenderable=totals['unrenderable'],
+               compiler_vs_reference_inference={k[4:]: v for k, v in totals.items()
+                                                if k.startswith('ref:')},
                evaluations=n, distinct_nontrivial=totals['ok'] + totals['VIOLATION'],
                rule='one case = one term of the EdgeQLSem.tla universe, evaluated '
                     'by TLC on every database of the family, compiled by the real '
